@@ -35,14 +35,27 @@ def parseCEv (w : String) : Option CEv :=
   | ["t", st] => (Status.parse st).map .term
   | _ => none
 
+/-- `<tag>` (arrival) | `r:<prefix>:<iteration>[,<prefix>:<iteration>…]` (restore) -/
+def parseNEv (w : String) : Option NEv :=
+  if w.startsWith "r:" then
+    ((w.drop 2).toString.splitOn ",").mapM (fun (pr : String) => match pr.splitOn ":" with
+      | [a, b] => do
+          let x ← parseTag a
+          let y ← parseTag b
+          pure (x, y)
+      | _ => none) |>.map NEv.restore
+  else (parseTag w).map NEv.arrive
+
 def handle : List String → String
   | "loopout" :: m :: evs =>
       match (if m = "all" then some Method.all else if m = "last" then some Method.last else none), evs.mapM parseEv with
       | some meth, some es => renderSt (run meth es)
       | _, _ => "bad-op"
   | "number" :: ts =>
-      match ts.mapM parseTag with
-      | some l => if l.isEmpty then "-" else " ".intercalate ((numberAll (fun _ => none) l).map renderTag)
+      match ts.mapM parseNEv with
+      | some l =>
+          let out := numberEvs (fun _ => none) l
+          if out.isEmpty then "-" else " ".intercalate (out.map renderTag)
       | none => "bad-op"
   | "checklist" :: evs =>
       match evs.mapM parseCEv with
